@@ -2205,6 +2205,9 @@ func (k *Kernel) handleReplayedHeader(
 	// TODO: did we confirm the voting validator set matches replayed?
 	s.Voting.VoteSummary.SetPrecommitPowers(s.Voting.ValidatorSet.Validators, s.Voting.PrecommitProofs)
 
+	// The voting view changed (header and precommits), whether or not it commits below.
+	s.MarkVotingViewUpdated()
+
 	// Since this was a replayed header and we know it was in the voting round,
 	// we must have added precommits.
 	// Update the store with whatever the new set of precommits is.
